@@ -97,7 +97,23 @@ Proof.
   - pose proof (hold_inc_frame s rk) as (? & _). apply keeps_refl; assumption.
   - pose proof (hold_dec_frame s rk) as (? & _). apply keeps_refl; assumption.
   - congruence.
-  - discriminate.
+  - (* NstBalance: records are only rewritten with a lower ActualCompletedAmount *)
+    destruct (nst_balance s staker asset x) as [s'|] eqn:E; simpl; [|apply keeps_refl; reflexivity].
+    refine (proj2 (nst_balance_P (fun s0 => idx_inv s0 /\ keeps_records s s0) s staker asset x s' (conj I (keeps_refl s s eq_refl)) _ _ _ _ E)).
+    + intros s1 _ U. pose proof U as F. apply upd_sa_frame in F. destruct F as (u & p & h & _).
+      split; [eapply (idx_inv_ext s); eauto | apply keeps_refl; exact u].
+    + intros info f s1 _ _ _ U. pose proof U as F. apply upd_sa_frame in F. destruct F as (u & p & h & _).
+      split; [eapply (idx_inv_ext s); eauto | apply keeps_refl; exact u].
+    + intros s0 pend rk s2 p' _ [I0 K0] E0. split; [eapply record_step_idx; eauto|].
+      apply record_step_shape in E0. destruct E0 as (r & s1 & G & _ & H0). simpl in H0. destruct H0 as (U & ->).
+      apply upd_sa_frame in U. destruct U as (u & _). destruct I0 as (Su0 & _).
+      intros k0 r0 G0. destruct (K0 k0 r0 G0) as (r1 & G1 & A & B & C & D & F). simpl. rewrite u.
+      destruct (string_dec rk k0) as [<-|Nk0].
+      * rewrite sget_sset_same. rewrite G in G1. inversion G1; subst. exists (with_act r1 (ur_act r1 - (if 0 <? pend - ur_act r1 then ur_act r1 else pend))).
+        split; [reflexivity|]. unfold with_act. simpl. auto 10.
+      * rewrite sget_sset_other by assumption. exists r1. auto 10.
+    + intros prop s0 k row s2 [I0 K0] E0. apply share_step_frame in E0. destruct E0 as (u & p & _ & h & _).
+      split; [eapply (idx_inv_ext s0); eauto|]. intros k0 r0 G0. destruct (K0 k0 r0 G0) as (r1 & G1 & Rest). exists r1. rewrite u. auto.
 Qed.
 
 (* ---- the index-bijection defect: a witness history ---- *)
@@ -185,7 +201,14 @@ Proof.
   - pose proof (hold_inc_frame s rk) as (-> & _). exact L.
   - pose proof (hold_dec_frame s rk) as (-> & _). exact L.
   - destruct (end_block_idx lst_only (fun s0 r _ G L0 => process_lst s0 r L0 G) (fun s0 h L0 => L0) s I L) as (_ & Q & _). exact Q.
-  - discriminate.
+  - destruct (nst_balance s staker asset x) as [s'|] eqn:E; simpl; [|exact L].
+    refine (nst_balance_P (fun s0 => allv rec_lst (ur s0) = true) s staker asset x s' L _ _ _ _ E).
+    + intros s1 _ U. apply upd_sa_frame in U. destruct U as (u & _). unfold log_ev. simpl. rewrite u. exact L.
+    + intros info f s1 _ _ _ U. apply upd_sa_frame in U. destruct U as (u & _). unfold log_ev. simpl. rewrite u. exact L.
+    + intros s0 pend rk s2 p' _ L0 E0. apply record_step_shape in E0. destruct E0 as (r & s1 & G & _ & H0). simpl in H0.
+      destruct H0 as (U & ->). apply upd_sa_frame in U. destruct U as (u & _). simpl. rewrite u.
+      apply allv_sset; [exact L0|]. exact (allv_sget _ _ _ _ L0 G).
+    + intros prop s0 k row s2 L0 E0. apply share_step_frame in E0. destruct E0 as (u & _). rewrite u. exact L0.
 Qed.
 
 Lemma run_lst ops : forall s, idx_inv s -> lst_only s -> hist_ok s ops = true -> forallb lst_op ops = true -> lst_only (run ops s).
